@@ -455,7 +455,7 @@ func runC20(c *CaseCtx) *CaseResult {
 		kind = "map"
 	}
 	cc := &ContCase{Kind: kind}
-	cc.Slab = []uint32{256, 512, 1024}[c.Case/2%3]
+	cc.Slab = wideSlab(c.Case, []uint32{256, 512, 1024}[c.Case/2%3])
 	cc.Prof = DefaultValProfile()
 	cc.Prof.PContainer = 25
 	cc.Prof.MaxDepth = 3
